@@ -3,13 +3,18 @@
    -- as long as nothing strips that reading (UTC, Local, In, Round(0), Truncate, AddDate ...) from a time
    value on the way.  goextract scans every function of the files that schedule transmissions, compute
    deprecated lifetimes, parse the epoch, time-stamp received messages and back off (gen/ExtClock.v);
-   this lemma is in the cone of the properties whose theorems speak about instants and durations
+   the same scan lists every place where the WALL-clock reading of an instant is taken (Unix, UnixNano, ...,
+   or an instant made by time.Unix / time.Date / time.Parse inside a function): the six the code has are
+   gauge values float64(t.Unix()) and PRNG seeds rand.NewSource(t.UnixNano()); a reading that flows anywhere
+   else (e.g. epoch.UnixNano() - now.UnixNano(): wall-clock arithmetic without any stripping call) is listed
+   in clock_wall_reads.  This lemma is in the cone of the properties whose theorems speak about instants and durations
    (C03, C05, C06, C07, C16, C18): a change that loses the monotonic reading breaks it on the next run. *)
 From Coq Require Import List String ZArith.
 From CR Require Import gen.ExtClock.
 Import ListNotations.
 
-Theorem one_clock : clock_strips = [] /\ clock_funcs_found = 16%Z.
-Proof. split; reflexivity. Qed.
+Theorem one_clock :
+  clock_strips = [] /\ clock_wall_reads = [] /\ clock_wall_sinks = 6%Z /\ clock_funcs_found = 16%Z.
+Proof. repeat split; reflexivity. Qed.
 
 Print Assumptions one_clock.
